@@ -8,7 +8,7 @@ SIM = "seeded deterministic simulation (testing/synctest bubble, tape-driven sch
 CHECKS = {
  "C05": dict(
    tech=SIM + "; independent RFC 8907 peer; history oracle over probe-handler invocations",
-   text="Exploration: seeded search over packet sequences x stream segmentations x truncation/stall faults; the real Server/crypter reads a simulated TCP stream whose every read boundary is decided by the tape; the oracle compares what the probe handler was given with what the independent peer sent, and checks refusal timing of oversize headers step by step.",
+   text="Exploration: seeded search over packet sequences x stream segmentations x truncation/stall faults; the real Server/crypter reads a simulated TCP stream whose every read boundary is decided by the tape; the oracle compares what the probe handler was given with what the independent peer sent, and checks refusal timing of oversize headers step by step. Further families: scripted pacing and coalescing on the simulated clock (a packet must get the server's full per-packet waiting time however it was coalesced with its predecessor), proxy mode (an HA-proxy line before every packet), transports that return the last bytes together with io.EOF, and the library client as receiver of pipelined replies (SendOnly, then Send).",
    note="Trusts the simulated transport to behave like a TCP byte stream (arbitrary read boundaries, EOF, reset, deadlines); bodies and segmentations are sampled, not enumerated.",
    ref="DESIGN.md 5/C05"),
  "C06": dict(
@@ -81,7 +81,7 @@ CHECKS.update({
 
 CHECKS.update({
  "C15": dict(tech=SIM + "; Go race detector as invariant monitor over batch steps with Gosched yield seams; yield-instrumented loader (go/ast) + porcupine linearizability check of lookups vs publications; snapshot comparison of published configurations",
-   text="Three sub-checks. (a) The simulator is built with -race; batch steps make conflicting operations co-runnable with no harness-made ordering (accept vs connection exit, lookup vs publish, same-user authorizations on several connections, shutdown vs accept) and armed seams yield the processor inside handlers so that one connection overtakes another. (b) A scratch copy of /repo gets a parking point before every statement of the loader (cmd/yieldify); lookups and publications of configuration versions, built so that any mixture of two versions gives an outcome no single version gives, are recorded with event sequence numbers and checked with porcupine against a single-register model. (c) Every published configuration is snapshotted and compared after further loads.",
+   text="Three sub-checks. (a) The simulator is built with -race; batch steps make conflicting operations co-runnable with no harness-made ordering (accept vs connection exit, lookup vs publish, same-user authorizations on several connections, shutdown vs accept) and armed seams yield the processor inside handlers so that one connection overtakes another. (b) A scratch copy of /repo gets a parking point before every statement of the loader (cmd/yieldify); lookups and publications of configuration versions, built so that any mixture of two versions gives an outcome no single version gives, are recorded with event sequence numbers and checked with porcupine against a single-register model. (c) Every published configuration is snapshotted and compared after further loads. (d) The file watcher's real watch loop (verif hook) under the race detector with publications nobody consumes at once, and no harness-made ordering between two reloads.",
    note="The race detector reports only races between operations the batches make co-runnable, and its report (unlike the schedule) does not replay deterministically: race replays are attempted up to 8 times. Linearizability checks are capped at 40 operations / 20 s; Unknown is counted as inconclusive.", ref="DESIGN.md 5/C15"),
  "C16": dict(tech=SIM + "; long-lived loader vs fresh loader on the same bytes after every step of a document history with torn/short/stale-tail/empty/garbage file faults; end-to-end reloads through the simulated server",
    text="Exploration of histories with disk faults: one YAML or JSON loader instance receives generated document histories via Unmarshal and via Load of a file (documents dropping optional keys, shrinking and reordering lists, removing per-user items, unparsable or failing the minimum-content check, torn writes); after each step a fresh loader gets the same bytes; both must fail or publish deeply equal values, and earlier published values must still equal their snapshots. End to end: the reference server reloads documents while clients come and go, and connections admitted after a reload are judged by the reference model on the new document. Watcher family: the reference server's file watcher runs its real watch loop (started through the verif-tagged StartWithEvents hook) over real files in a private directory; the simulator delivers the change events (configured file, siblings whose names contain its name, swap files, lost events) and advances the simulated clock past the loop's tick; whatever is published must equal a fresh loader's publication for the configured file.",
